@@ -14,18 +14,19 @@ CFG = {
     "level_text": "Coq proofs (closed under the global context) about C05's executable model of add_change_if_needed / "
                   "add_inputs_from_and_change / build_tx instantiated with the fee model of FeeSuff/FeeModel.v (min_fee = a * |fake full tx| + b + "
                   "ex-unit fee + tiered reference-script fee, |tx| = K(st) + uint_size(fee) + array_head(#outputs) + sum out_size, for ARBITRARY K, "
-                  "output base sizes, min-ADA / size-test / selection oracles): the fee add_change stores covers the ledger minimum of the transaction "
-                  "it leaves whenever the bytes by which final outputs + fee field exceed the outputs as priced fit the placeholder (slack_ok, a decidable "
-                  "condition computed by the model); the two ways in which the condition fails (top-up of the last change output past the 9-byte slack, a "
-                  "binding set_min_fee priced at its own width) are refuted by witnesses, replayed on the real code with really signed transactions and "
-                  "listed as known classes; every fee policy is honoured in every branch; build_tx (as repaired in /repo 0fc161c) returns only bodies whose "
+                  "output base sizes, min-ADA / size-test / selection oracles): EVERY successful add_change whose fee was not fixed by the caller stores a fee "
+                  "that covers the ledger minimum of the transaction it leaves (C06_sufficient, full strength, for the code as repaired in /repo 05eafef: "
+                  "fee re-check at the end of the change paths); for the code before the repair the same holds under the decidable slack condition, and the two "
+                  "ways in which it failed (top-up of the last change output past the 9-byte placeholder, a binding set_min_fee priced at its own width) are "
+                  "refuted by witnesses that were replayed on the real code with really signed transactions (now fixed findings, regression corpus); "
+                  "every fee policy is honoured in every branch; build_tx (as repaired in /repo 0fc161c) returns only bodies whose "
                   "fee covers the minimum and honours the request; sequential fee_for_output increments telescope. The model is tied to the compiled code by "
                   "an exact differential run in which EVERY min_fee answer of the real builder is recomputed by the model, and the judge evaluates the "
                   "ledger rule (C15's spec functions) on the size of transactions the harness really signs.",
     "level_note": "Trusted: Coq kernel; C05's hand-written change model and this property's fee model (tied by correspondence on the generated cases); "
                   "equality |fake_full_tx| = |really signed tx| is C18's theorem, re-measured here on every built transaction; extraction and glue. No axioms. "
                   "K, the ex-unit total and the reference-script bytes are per-scenario measurements / ground truth supplied by the harness.",
-    "theorems": ["C06_sufficient", "C06_sufficient_refuted", "C06_notless_refuted", "C06_priced", "C06_split", "C06_policy", "C06_validate",
+    "theorems": ["C06_sufficient", "C06_fix_split", "C06_legacy_sufficient", "C06_sufficient_refuted", "C06_notless_refuted", "C06_priced", "C06_split", "C06_policy", "C06_validate",
                  "C06_late_fee_request_legacy_refuted", "C06_select", "C06_telescope", "C06_telescope_closed", "C06_slack_widths"],
     "allowed_axioms": [],
     "compare": "exact",
@@ -49,6 +50,6 @@ CFG = {
         "reference/regular input intersection test of build_tx are not modelled (they only add failures)",
         "K, ex-unit fee and reference-script fee do not depend on outputs or fee (functions of the state with both erased)",
     ],
-    "explanation": "C06_sufficient quantifies over all builder states, fee policies, linear fees, size environments and oracles; its slack premise is decidable "
-                   "and evaluated by the model on every scenario; known classes = its negation (top-up / binding set_min_fee), each with a real witness in corpus/C06.",
+    "explanation": "C06_sufficient quantifies over all builder states, fee policies (other than a caller-fixed fee, which build_tx checks: C06_validate), linear fees, "
+                   "size environments and oracles, with no further premise; no known class is left: any fee below the ledger minimum of a really signed transaction is a violation.",
 }
